@@ -124,6 +124,7 @@ func genTree(r *prng.R, big bool) *Case {
 	c.Dest = prng.Pick(r, []string{"dest", "dest", "out dir", "m/dest", "m/n/d.e.s.t", "ünzip", "..dest"})
 	c.DestForm = prng.Pick(r, []string{"", "", "", "slash", "dslash", "dotmid"})
 	c.DestPre = prng.Pick(r, []string{"absent", "absent", "empty"})
+	c.ZipPre = prng.Pick(r, []string{"", "", "", "stale", "stale", "garbage", "empty"})
 	return c
 }
 
